@@ -30,6 +30,10 @@ REPLAY_DIR = os.path.join(EVIDENCE_DIR, 'replays')
 CORPUS_DIR = os.path.join(VERIF, 'corpus')
 KNOWN_FILE = os.path.join(VERIF, 'known_findings.txt')
 REPO = os.environ.get('GEOSTRUCTURES_REPO', '/repo')
+if os.path.realpath(REPO) != os.path.realpath('/repo'):
+    # runs against scratch clones (seeded changes, reverted fixes) never overwrite the real evidence
+    EVIDENCE_DIR = os.path.join(VERIF, 'evidence', '_scratch')
+    REPLAY_DIR = os.path.join(EVIDENCE_DIR, 'replays')
 ALLOWED_AXIOMS = {'propext', 'Classical.choice', 'Quot.sound'}
 FORBIDDEN = re.compile(r'\bsorry\b|\badmit\b|^\s*axiom\s|native_decide|bv_decide|implemented_by|\bunsafe\s|maxHeartbeats\s+0')
 
